@@ -147,6 +147,24 @@ CHECKS = {
             "edges are decided by the correspondence and the oracle, not proved; 2-D grids, "
             "projections, Categorize labels and mpv are not modelled (not checked)",
             "section 6 C13"),
+    "C14": ("proof",
+            "make_histograms(df, feature, bin_specs) is modelled as the primitive tree of the feature "
+            "filled with the rows of the frame; Coq theorems (exact instance): any partition of the "
+            "rows into chunks, summed with + in any order and parenthesisation, gives the histogram "
+            "of the whole frame (instance of the C01 theorems); " + TIE + ": frames with float (NaN), "
+            "integer, boolean and timestamp (NaT) columns, features of 1-3 columns, explicit bin "
+            "specifications of every supported kind or those returned by make_histograms for "
+            "binning auto / unit (with and without time_axis); make_histograms(whole), the sum of "
+            "make_histograms(chunk) over a random partition, and the same tree built from the "
+            "primitives and filled from the columns are compared with each other and with the model; "
+            "entries = rows; the frame is compared with a copy",
+            "partial: pandas, the automatic choice of bin specifications, timestamp conversion and "
+            "the dtype guards are not modelled (the check uses the specifications make_histograms "
+            "returns); the derivation of the tree from (columns, dtypes, bin_specs) is a harness "
+            "transcription (harness/dfspec.py); empty frames / chunks are refused by the library "
+            "(RuntimeError 'data is empty') and are not generated; string columns are outside the "
+            "claim as the property says",
+            "section 6 C14"),
     "C15": ("proof",
             "Coq theorems about the reader model for EVERY document and every arithmetic instance: "
             "an accepted document has exactly the header keys, an accepted version and a registered "
